@@ -8,9 +8,14 @@ RULE = ("random histories of UPDATEs (announce / withdraw / both for one prefix 
 
 def gen(rng, tier):
     n = 2500 if tier == "quick" else 40000
+    # two cases in three also carry UPDATEs from the wire: octets from C04's proved encoder (all four families,
+    # MP_REACH / MP_UNREACH / conventional, End-of-RIB forms, unknown AFI/SAFIs) and malformed variants of them
+    wire = [i % 3 != 0 for i in range(n)]
+    plans = [pipegen.raw_plan(rng.fork("raw%d" % i)) if wire[i] else [] for i in range(n)]
+    hexes = pipegen.encode_plans(V, rng.fork("enc"), plans)
     for i in range(n):
         yield pipegen.gen_case(rng, peers=pipegen.DISTINCT_PEERS, flaps=(i % 4 == 0), reup=False, metrics=False, bgp=True,
-                               length=(8, 50 if tier == "quick" else 150), queries=(3, 8))
+                               length=(8, 50 if tier == "quick" else 150), queries=(3, 8), raw=hexes[i] or None)
 
 
 def nontrivial(case, out):
